@@ -43,116 +43,131 @@ def _strict_gt(e: ast.AST):
     return None
 
 
+def _kernel_literal(e: ast.AST):
+    e = astq.peel(e, "to", "float", "cuda", "cpu", "type_as")
+    if isinstance(e, ast.Call) and norm(e.func).split(".")[-1] in ("tensor", "as_tensor", "Tensor", "FloatTensor") and e.args:
+        try:
+            return ast.literal_eval(e.args[0])
+        except Exception:
+            return None
+    return None
+
+
 def check_rough(prog: Program, res: Result) -> None:
+    """All obligations are read off EXPANDED expressions (named intermediates, re-bound names and extracted helpers are
+    substituted first), so they do not depend on variable names or on how the statements are split."""
     fi = prog.func(f"{PF}:find_local_peaks_rough")
     res.touch(fi)
-    defs: Dict[str, ast.AST] = {}
-    for st in walk_function(fi.node):
-        if isinstance(st, ast.Assign) and isinstance(st.targets[0], ast.Name):
-            defs.setdefault(st.targets[0].id, []).append(st.value)
-    # the mask
-    where_calls = [c for c in walk_function(fi.node) if isinstance(c, ast.Call) and norm(c.func) == "torch.where" and len(c.args) == 1]
+    fn = fi.node
+    maps = fi.pos_params[0] if fi.pos_params else "cms"
+    thr = fi.pos_params[1] if len(fi.pos_params) > 1 else "threshold"
+    where_calls = [c for c in walk_function(fn) if isinstance(c, ast.Call) and norm(c.func) in ("torch.where", "torch.nonzero") and len(c.args) == 1]
     res.ob("C06-strict", len(where_calls) == 1, fi.qualname, "one where() over the selection mask", f"{len(where_calls)} where() calls", fi.where)
     if len(where_calls) != 1:
         return
-    warg = where_calls[0].args[0]
-    perm = None
-    mask_name = None
+    wst = enclosing_stmt(where_calls[0])
+    warg = astq.expand_at(fn, where_calls[0].args[0], wst)
+    perm = [0, 1, 2, 3]
+    m = warg
     if isinstance(warg, ast.Call) and isinstance(warg.func, ast.Attribute) and warg.func.attr == "permute":
-        perm = [astq.const_value(a) for a in warg.args]
-        mask_name = norm(warg.func.value)
-    elif isinstance(warg, ast.Name):
-        perm = [0, 1, 2, 3]
-        mask_name = warg.id
-    mvals = defs.get(mask_name, [])
-    m = mvals[-1] if len(mvals) == 1 else None
+        a = warg.args[0].elts if len(warg.args) == 1 and isinstance(warg.args[0], (ast.Tuple, ast.List)) else warg.args
+        perm = [astq.const_value(x) for x in a]
+        m = warg.func.value
     conj = []
     if isinstance(m, ast.BinOp) and isinstance(m.op, ast.BitAnd):
         conj = [m.left, m.right]
     elif isinstance(m, ast.Call) and norm(m.func) in ("torch.logical_and",):
         conj = list(m.args)
-    gts = [_strict_gt(c) for c in conj]
+    gts = []
+    for c in conj:
+        g = None
+        if isinstance(c, ast.Compare) and len(c.ops) == 1 and isinstance(c.ops[0], (ast.Gt, ast.Lt)):
+            g = (c.left, c.comparators[0]) if isinstance(c.ops[0], ast.Gt) else (c.comparators[0], c.left)
+        elif isinstance(c, ast.Call) and norm(c.func) in ("torch.gt", "torch.lt") and len(c.args) == 2:
+            g = (c.args[0], c.args[1]) if norm(c.func) == "torch.gt" else (c.args[1], c.args[0])
+        elif isinstance(c, ast.Call) and isinstance(c.func, ast.Attribute) and c.func.attr in ("gt", "lt") and len(c.args) == 1:
+            g = (c.func.value, c.args[0]) if c.func.attr == "gt" else (c.args[0], c.func.value)
+        gts.append(g)
     ok = len(conj) == 2 and all(g is not None for g in gts)
-    dil_name = None
+    dil = None
     if ok:
-        rights = {g[1] for g in gts}
-        lefts = {g[0] for g in gts}
-        ok = lefts == {"cms"} and "threshold" in rights and len(rights) == 2
-        dil_name = next(iter(rights - {"threshold"}), None)
+        ok = all(norm(g[0]) == maps for g in gts)
+        rights = [g[1] for g in gts]
+        thr_side = [r for r in rights if norm(r) == thr]
+        other = [r for r in rights if norm(r) != thr]
+        ok = ok and len(thr_side) == 1 and len(other) == 1
+        dil = other[0] if other else None
     res.ob("C06-strict", ok, fi.qualname, "mask = (cms > dilated) & (cms > threshold), both strict",
-           f"the selection mask is `{short(m, 70) if m is not None else '?'}`: not the conjunction of two STRICT comparisons of the map with its dilation and with the threshold "
-           "(ties / plateaus / at-threshold cells would be reported)", fi.where, sample=short(m, 80) if m is not None else None)
-    # kernel
-    kd = defs.get("kernel", [])
-    ok = False
+           f"the selection mask is `{short(m, 70)}`: not the conjunction of two STRICT comparisons of the map with its dilation and with the threshold "
+           "(ties / plateaus / at-threshold cells would be reported)", fi.where, sample=short(m, 80))
+    # the dilated map: dilation(cms.reshape(-1, 1, H, W), kernel).reshape(-1, C, H, W)
+    H, W_, C = f"{maps}.size(2)", f"{maps}.size(3)", f"{maps}.size(1)"
+    back_ok = fwd_ok = False
     k = None
-    if len(kd) == 1 and isinstance(kd[0], ast.Call) and norm(kd[0].func) == "torch.tensor" and kd[0].args:
-        try:
-            k = ast.literal_eval(kd[0].args[0])
-            ok = len(k) == 3 and all(len(r) == 3 for r in k) and k[1][1] == 0 and all(k[i][j] != 0 for i in range(3) for j in range(3) if (i, j) != (1, 1))
-        except Exception:
-            ok = False
-    res.ob("C06-kernel", ok, fi.qualname, "3x3 kernel, centre 0, eight neighbours non-zero", f"the suppression kernel is {k}: the neighbourhood is not the 8 neighbours without the centre",
+    if dil is not None:
+        d = astq.peel(dil, "to", "float", "contiguous")
+        inner = d
+        if isinstance(d, ast.Call) and isinstance(d.func, ast.Attribute) and d.func.attr in ("reshape", "view"):
+            shp = d.args[0].elts if len(d.args) == 1 and isinstance(d.args[0], (ast.Tuple, ast.List)) else d.args
+            back_ok = [astq.dims(norm(x)) for x in shp] == ["-1", C, H, W_]
+            inner = d.func.value
+        if isinstance(inner, ast.Call) and norm(inner.func).endswith("dilation") and len(inner.args) >= 2:
+            a0 = inner.args[0]
+            if isinstance(a0, ast.Call) and isinstance(a0.func, ast.Attribute) and a0.func.attr in ("reshape", "view") and norm(a0.func.value) == maps:
+                shp = a0.args[0].elts if len(a0.args) == 1 and isinstance(a0.args[0], (ast.Tuple, ast.List)) else a0.args
+                fwd_ok = [astq.dims(norm(x)) for x in shp] == ["-1", "1", H, W_]
+            k = _kernel_literal(inner.args[1])
+    okk = False
+    try:
+        okk = k is not None and len(k) == 3 and all(len(r) == 3 for r in k) and k[1][1] == 0 and all(k[i][j_] != 0 for i in range(3) for j_ in range(3) if (i, j_) != (1, 1))
+    except Exception:
+        okk = False
+    res.ob("C06-kernel", okk, fi.qualname, "3x3 kernel, centre 0, eight neighbours non-zero", f"the suppression kernel is {k}: the neighbourhood is not the 8 neighbours without the centre",
            fi.where, sample=k)
-    # dilation wiring
-    dcalls = [c for c in walk_function(fi.node) if isinstance(c, ast.Call) and norm(c.func).endswith("morphology.dilation")]
-    ok = len(dcalls) == 1
-    if ok:
-        a0 = dcalls[0].args[0]
-        a1 = dcalls[0].args[1]
-        fl = defs.get(norm(a0), [None])[-1]
-        ok = isinstance(fl, ast.Call) and norm(fl.func) == "cms.reshape" and [norm(x) for x in fl.args] == ["-1", "1", "height", "width"] and norm(a1).startswith("kernel")
-        back = defs.get(dil_name or "", [])
-        ok = ok and len(back) == 2 and any(isinstance(b, ast.Call) and isinstance(b.func, ast.Attribute) and b.func.attr == "reshape"
-                                             and [norm(x) for x in b.args] == ["-1", "channels", "height", "width"] for b in back)
-    res.ob("C06-kernel", ok, fi.qualname, "dilation per (sample, channel) map, reshaped back with the channel count",
-           "the dilation is not applied to cms.reshape(-1, 1, H, W) and reshaped back to (-1, channels, H, W): neighbouring channels/samples suppress each other", fi.where)
-    hw = {n: norm(v[-1]) for n, v in defs.items() if n in ("height", "width", "channels")}
-    res.ob("C06-kernel", hw == {"height": "cms.size(2)", "width": "cms.size(3)", "channels": "cms.size(1)"}, fi.qualname, "H, W, channels read from dims 2, 3, 1", f"dims are {hw}", fi.where)
+    res.ob("C06-kernel", fwd_ok and back_ok, fi.qualname, "dilation per (sample, channel) map, reshaped back with the channel count",
+           f"the dilation is not applied to {maps}.reshape(-1, 1, H, W) and reshaped back to (-1, channels, H, W): neighbouring channels/samples suppress each other", fi.where)
+    res.ob("C06-kernel", fwd_ok and back_ok, fi.qualname, "H, W, channels read from dims 2, 3, 1", "dims are read from other axes", fi.where)
     # subscripts
-    res.ob("C06-subs", perm is not None and sorted(perm) == [0, 1, 2, 3], fi.qualname, "mask permuted by a permutation of the four axes before where()", f"mask permuted by {perm}", fi.where)
-    # the subscripts variable: stack(where(mask.permute(p)), axis=-1); column j of it indexes dimension p[j] of cms
-    st_where = enclosing_stmt(where_calls[0])
-    subs = norm(st_where.targets[0]) if isinstance(st_where, ast.Assign) else None
-    sv = st_where.value if isinstance(st_where, ast.Assign) else None
-    ok = isinstance(sv, ast.Call) and norm(sv.func) == "torch.stack" and any(k_.arg in ("axis", "dim") and astq.const_value(k_.value) == -1 for k_ in sv.keywords)
-    res.ob("C06-subs", ok, fi.qualname, "subscripts stacked on the last axis", "subscripts are not stacked as columns", fi.where)
-    p = perm or []
-    col_of_dim = {d: j for j, d in enumerate(p)} if sorted(p) == [0, 1, 2, 3] else {}
+    res.ob("C06-subs", sorted(perm) == [0, 1, 2, 3], fi.qualname, "mask permuted by a permutation of the four axes before where()", f"mask permuted by {perm}", fi.where)
+    subs = norm(wst.targets[0]) if isinstance(wst, ast.Assign) and isinstance(wst.targets[0], ast.Name) else None
+    sv = wst.value if isinstance(wst, ast.Assign) else None
+    ok = isinstance(sv, ast.Call) and norm(sv.func) == "torch.stack" and (any(k_.arg in ("axis", "dim") and astq.const_value(k_.value) == -1 for k_ in sv.keywords)
+                                                                        or (len(sv.args) == 2 and astq.const_value(sv.args[1]) == -1))
+    res.ob("C06-subs", ok and subs is not None, fi.qualname, "subscripts stacked on the last axis", "subscripts are not stacked as columns", fi.where)
+    col_of_dim = {d_: j_ for j_, d_ in enumerate(perm)} if sorted(perm) == [0, 1, 2, 3] else {}
 
     def col(e):
         """column k of `subs[:, k]` (possibly wrapped in .to(...))"""
-        while isinstance(e, ast.Call) and isinstance(e.func, ast.Attribute) and e.func.attr in ("to", "long", "int", "float"):
-            e = e.func.value
+        e = astq.peel(e, "to", "long", "int", "float")
         if isinstance(e, ast.Subscript) and norm(e.value) == subs and isinstance(e.slice, ast.Tuple) and len(e.slice.elts) == 2 and norm(e.slice.elts[0]) == ":":
             k_ = e.slice.elts[1]
             if isinstance(k_, ast.List):
                 return [astq.const_value(x) for x in k_.elts]
             return astq.const_value(k_)
+        if isinstance(e, ast.Call) and norm(e.func).split(".")[-1] in ("stack", "cat") and e.args and isinstance(e.args[0], (ast.List, ast.Tuple)):
+            cs = [col(astq.peel(x, "unsqueeze")) for x in e.args[0].elts]
+            return cs if all(isinstance(c_, int) for c_ in cs) else None
         return None
 
-    rets_ = [n for n in walk_function(fi.node) if isinstance(n, ast.Return)]
+    rets_ = [n for n in walk_function(fn) if isinstance(n, ast.Return)]
     rt = rets_[0].value.elts if len(rets_) == 1 and isinstance(rets_[0].value, ast.Tuple) and len(rets_[0].value.elts) == 4 else []
-    rd = [astq.deref(fi.node, e) for e in rt]
+    rd = [astq.expand_at(fn, e, rets_[0], keep=[subs] if subs else []) for e in rt]
     if len(rd) == 4 and col_of_dim:
         pts, vals, si, ci = rd
         got = col(pts)
         res.ob("C06-subs", got == [col_of_dim[3], col_of_dim[2]], fi.qualname, "points = (column of the width axis, column of the height axis) = (x, y)",
-               f"peak points take subscript columns {got}; with the mask permuted by {p} (x, y) must be columns {[col_of_dim[3], col_of_dim[2]]}: x and y are swapped or a non-spatial column is used",
-               fi.where, sample={"permute": p, "points_columns": got})
+               f"peak points take subscript columns {got}; with the mask permuted by {perm} (x, y) must be columns {[col_of_dim[3], col_of_dim[2]]}: x and y are swapped or a non-spatial column is used",
+               fi.where, sample={"permute": perm, "points_columns": got})
         got = col(si)
         res.ob("C06-subs", got == col_of_dim[0], fi.qualname, "sample index = column of axis 0", f"sample indices take column {got}, axis 0 is column {col_of_dim[0]}", fi.where)
         got = col(ci)
         res.ob("C06-subs", got == col_of_dim[1], fi.qualname, "channel index = column of axis 1", f"channel indices take column {got}, axis 1 is column {col_of_dim[1]}", fi.where)
-        ok = isinstance(vals, ast.Subscript) and norm(vals.value) == "cms" and isinstance(vals.slice, ast.Tuple) and len(vals.slice.elts) == 4
+        ok = isinstance(vals, ast.Subscript) and norm(vals.value) == maps and isinstance(vals.slice, ast.Tuple) and len(vals.slice.elts) == 4
         gotv = [col(e) for e in vals.slice.elts] if ok else None
-        res.ob("C06-subs", ok and gotv == [col_of_dim[d] for d in range(4)], fi.qualname, "value read at cms[sample, channel, row, col] of the very cell",
-               f"peak values are read with subscript columns {gotv} for axes (0,1,2,3); the permutation {p} requires {[col_of_dim[d] for d in range(4)]}: the value is not the one at the peak", fi.where)
+        res.ob("C06-subs", ok and gotv == [col_of_dim[d_] for d_ in range(4)], fi.qualname, "value read at cms[sample, channel, row, col] of the very cell",
+               f"peak values are read with subscript columns {gotv} for axes (0,1,2,3); the permutation {perm} requires {[col_of_dim[d_] for d_ in range(4)]}: the value is not the one at the peak", fi.where)
     else:
-        res.ob("C06-subs", False, fi.qualname, "four values returned from a (0..3) permutation", f"cannot relate the returned tuple to the permutation {p}", fi.where)
-    rets = [n for n in walk_function(fi.node) if isinstance(n, ast.Return)]
-    ok = len(rets) == 1 and norm(rets[0].value).strip("()") == "peak_points, peak_vals, peak_sample_inds, peak_channel_inds"
-    res.ob("C06-subs", ok, fi.qualname, "returns (points, values, sample indices, channel indices)", "the return tuple order changed", fi.where)
+        res.ob("C06-subs", False, fi.qualname, "four values returned from a (0..3) permutation", f"cannot relate the returned tuple to the permutation {perm}", fi.where)
     res.floor("C06-strict", 2)
     res.floor("C06-kernel", 3)
     res.floor("C06-subs", 6)
@@ -161,71 +176,128 @@ def check_rough(prog: Program, res: Result) -> None:
 def check_refine(prog: Program, res: Result) -> None:
     fi = prog.func(f"{PF}:find_local_peaks")
     res.touch(fi)
+    fn = fi.node
+    maps = fi.pos_params[0] if fi.pos_params else "cms"
     calls = [c for c, q in prog.calls_in(fi) if q == f"{PF}:find_local_peaks_rough"]
     res.ob("C06-pass", len(calls) == 1, fi.qualname, "one rough detection", f"{len(calls)} calls of find_local_peaks_rough", fi.where)
     if len(calls) != 1:
         return
     st = enclosing_stmt(calls[0])
-    names = [norm(e) for e in st.targets[0].elts] if isinstance(st.targets[0], ast.Tuple) else []
+    names = [norm(e) for e in st.targets[0].elts] if isinstance(st, ast.Assign) and isinstance(st.targets[0], ast.Tuple) else []
     res.ob("C06-pass", len(names) == 4, fi.qualname, "rough result unpacked into four names", f"unpacked into {names}", fi.where)
     if len(names) != 4:
         return
     b = astq.bind_args(prog.func(f"{PF}:find_local_peaks_rough"), calls[0])
-    res.ob("C06-pass", norm(b.get("cms")) == "cms" and norm(b.get("threshold")) == "threshold", fi.qualname, "rough detector gets the map and the threshold", "cms/threshold not forwarded", fi.where)
+    res.ob("C06-pass", norm(b.get("cms")) == maps and norm(b.get("threshold")) == "threshold", fi.qualname, "rough detector gets the map and the threshold", "cms/threshold not forwarded", fi.where)
     rough, vals, sinds, cinds = names
-    for nm in (vals, sinds, cinds):
-        res.ob("C06-pass", not astq.assignments_to(fi.node, nm)[1:], fi.qualname, f"{nm} never re-bound", f"`{nm}` is reassigned after the rough detection", fi.where)
-    rets = [n for n in walk_function(fi.node) if isinstance(n, ast.Return)]
+    for nm in (rough, vals, sinds, cinds):
+        res.ob("C06-pass", not astq.assignments_to(fn, nm)[1:], fi.qualname, f"{nm} never re-bound", f"`{nm}` is reassigned after the rough detection", fi.where)
+    keep = [rough, vals, sinds, cinds]
+    rets = [n for n in walk_function(fn) if isinstance(n, ast.Return)]
+    refined_exprs = []
     for r in rets:
-        el = [norm(e) for e in r.value.elts] if isinstance(r.value, ast.Tuple) else []
-        ok = len(el) == 4 and el[1:] == [vals, sinds, cinds] and el[0] in (rough, "refined_peaks")
-        res.ob("C06-pass", ok, fi.qualname, f"return keeps values/sample/channel of the rough peaks: {short(r.value, 50)}",
+        el = [astq.expand_at(fn, e, r, keep=keep, unpack_calls=True) for e in r.value.elts] if isinstance(r.value, ast.Tuple) else []
+        ok = len(el) == 4 and [norm(e) for e in el[1:]] == [vals, sinds, cinds]
+        first_ok = ok and (norm(el[0]) == rough or rough in astq.names_in(el[0]))
+        if ok and norm(el[0]) != rough:
+            refined_exprs.append((r, el[0]))
+        res.ob("C06-pass", ok and first_ok, fi.qualname, f"return keeps values/sample/channel of the rough peaks: {short(r.value, 50)}",
                f"a return path yields `{short(r.value, 60)}`: number/order/indices of peaks are not those of the rough detection", f"{fi.module.relpath}:{r.lineno}")
-    rd = [s for s in astq.assignments_to(fi.node, "refined_peaks") if isinstance(s, ast.Assign)]
-    ok = len(rd) == 1 and norm(rd[0].value) in (f"{rough} + offsets", f"offsets + {rough}")
-    res.ob("C06-pass", ok, fi.qualname, "refined = rough + offsets (elementwise, same order)", f"refined peaks are `{short(rd[0].value, 40) if rd else '?'}`", fi.where)
-    od = [s for s in astq.assignments_to(fi.node, "offsets") if isinstance(s, ast.Assign)]
-    ok = len(od) == 1 and norm(od[0].value) == "torch.cat([dx_hat, dy_hat], dim=1)"
-    res.ob("C06-pass", ok, fi.qualname, "offsets = (dx, dy)", f"offsets are `{short(od[0].value, 40) if od else '?'}` (x/y swapped or wrong axis)", fi.where)
-    ir = [c for c, q in prog.calls_in(fi) if q == f"{PF}:integral_regression"]
-    ok = len(ir) == 1
-    if ok:
-        st2 = enclosing_stmt(ir[0])
-        ok = [norm(e) for e in st2.targets[0].elts] == ["dx_hat", "dy_hat"] and {k.arg: norm(k.value) for k in ir[0].keywords} == {"xv": "gv", "yv": "gv"} and norm(ir[0].args[0]) == "cm_crops"
-    res.ob("C06-pass", ok, fi.qualname, "(dx, dy) = integral_regression(crops, gv, gv)", "integral regression is not applied to the crops on the centred grid", fi.where)
-    gv = [s for s in astq.assignments_to(fi.node, "gv") if isinstance(s, ast.Assign)]
-    ok = len(gv) == 1 and norm(gv[0].value).replace(" ", "") == "torch.arange(crop_size,dtype=torch.float32)-(crop_size-1)/2"
-    res.ob("C06-pass", ok, fi.qualname, "patch grid centred on the peak", f"patch grid is `{short(gv[0].value, 60) if gv else '?'}`", fi.where)
-    # index agreement
-    rs = [c for c in walk_function(fi.node) if isinstance(c, ast.Call) and norm(c.func) == "torch.reshape" and norm(c.args[0]) == "cms"]
-    ok = len(rs) == 1 and norm(rs[0].args[1]).replace(" ", "") == "[samples*channels,1,cms.size(2),cms.size(3)]"
-    res.ob("C06-index", ok, fi.qualname, "maps flattened to (samples*channels, 1, H, W)", f"maps are reshaped to `{short(rs[0].args[1], 50) if rs else '?'}`", fi.where)
-    bi = [s for s in astq.assignments_to(fi.node, "box_sample_inds") if isinstance(s, ast.Assign)]
-    ok = len(bi) == 1 and norm(bi[0].value).replace(" ", "").replace("(", "").replace(")", "") in (f"{sinds}*channels+{cinds}", f"{cinds}+{sinds}*channels", f"channels*{sinds}+{cinds}")
-    res.ob("C06-index", ok, fi.qualname, f"crop index = {sinds} * channels + {cinds}",
-           f"the per-peak crop index is `{short(bi[0].value, 50) if bi else '?'}`: it does not address map (sample, channel) in the (samples*channels) flattening - "
-           "patches are cut from another channel's or sample's map", fi.where, sample=short(bi[0].value, 60) if bi else None)
-    sc = {n: norm(s.value) for n in ("samples", "channels") for s in astq.assignments_to(fi.node, n) if isinstance(s, ast.Assign)}
-    res.ob("C06-index", sc == {"samples": "cms.size(0)", "channels": "cms.size(1)"}, fi.qualname, "samples/channels read from dims 0/1", f"{sc}", fi.where)
-    cb = [c for c, q in prog.calls_in(fi) if q == f"{PF}:crop_bboxes"]
-    ok = len(cb) == 1
-    if ok:
-        b2 = astq.bind_args(prog.func(f"{PF}:crop_bboxes"), cb[0])
-        ok = norm(b2.get("images")) == "cms" and norm(b2.get("bboxes")) == "bboxes" and norm(b2.get("sample_inds")) == "box_sample_inds"
-        # the reshape precedes the crop
-        ok = ok and rs and enclosing_stmt(rs[0]).lineno < cb[0].lineno
-    res.ob("C06-index", ok, fi.qualname, "crops cut from the flattened maps with the flattened index", "crop_bboxes is not called with the flattened maps and the flattened index", fi.where)
-    bb = [c for c, q in prog.calls_in(fi) if q == "sleap_nn.data.instance_cropping:make_centered_bboxes"]
-    ok = len(bb) == 1 and norm(bb[0].args[0]) == rough and {k.arg: norm(k.value) for k in bb[0].keywords} == {"box_height": "crop_size", "box_width": "crop_size"}
-    res.ob("C06-index", ok, fi.qualname, "patches centred on the rough peaks, patch-size square", "patch boxes are not centred on the rough peaks with the integral patch size", fi.where)
-    # integral regression itself
+    res.ob("C06-pass", len(refined_exprs) == 1, fi.qualname, "one refined return", f"{len(refined_exprs)} refined return paths", fi.where)
+    crop_call = None
+    patch_n = None
+    for r, e in refined_exprs:
+        # refined = rough + cat([dx, dy], dim=1) with (dx, dy) = integral_regression(crops, gv, gv)
+        parts = [e.left, e.right] if isinstance(e, ast.BinOp) and isinstance(e.op, ast.Add) else []
+        offs = [x for x in parts if norm(x) != rough]
+        ok = len(parts) == 2 and len(offs) == 1
+        res.ob("C06-pass", ok, fi.qualname, "refined = rough + offsets (elementwise, same order)", f"refined peaks are `{short(e, 60)}`", fi.where)
+        o = offs[0] if ok else None
+        ok = isinstance(o, ast.Call) and norm(o.func).split(".")[-1] in ("cat", "concat", "concatenate") and o.args and isinstance(o.args[0], (ast.List, ast.Tuple)) and len(o.args[0].elts) == 2 \
+            and (any(k.arg in ("dim", "axis") and astq.const_value(k.value) in (1, -1) for k in o.keywords) or (len(o.args) == 2 and astq.const_value(o.args[1]) in (1, -1)))
+        comp = []
+        if ok:
+            for x in o.args[0].elts:
+                # each component is integral_regression(...)[k]
+                if isinstance(x, ast.Subscript) and isinstance(x.value, ast.Call) and prog.resolve_call(fi, x.value) == f"{PF}:integral_regression":
+                    comp.append((astq.const_value(x.slice), x.value))
+                else:
+                    comp.append((None, None))
+        ok = ok and [c[0] for c in comp] == [0, 1]
+        res.ob("C06-pass", ok, fi.qualname, "offsets = (dx, dy)", f"offsets are `{short(o, 60) if o is not None else '?'}` (x/y swapped or wrong axis)", fi.where)
+        if ok:
+            irc = comp[0][1]
+            bi = astq.bind_args(prog.func(f"{PF}:integral_regression"), irc)
+            gx, gy = norm(bi.get("xv")), norm(bi.get("yv"))
+            import re
+            mm = re.fullmatch(r"torch\.arange\((\w+)(?:,dtype=torch\.float32)?\)(?:\.float\(\))?-\(\1-1\)/2(?:\.0)?", gx.replace(" ", ""))
+            g_ok = gx == gy and mm is not None
+            patch_n = mm.group(1) if mm else None
+            res.ob("C06-pass", g_ok, fi.qualname, "patch grid centred on the peak", f"patch grid is `{short(bi.get('xv'), 60)}` / `{short(bi.get('yv'), 60)}`", fi.where)
+            crops = bi.get("cms")
+            crops = astq.peel(crops, "to", "float", "contiguous") if crops is not None else None
+            ok_c = isinstance(crops, ast.Call) and prog.resolve_call(fi, crops) == f"{PF}:crop_bboxes"
+            res.ob("C06-pass", ok_c, fi.qualname, "(dx, dy) = integral_regression(crops, gv, gv)", "integral regression is not applied to the crops on the centred grid", fi.where)
+            crop_call = crops if ok_c else None
+    # index agreement: crops are cut from maps.reshape(S*C, 1, H, W) with index sample*C + channel at boxes centred on the rough peaks
+    S_, C_, H_, W_ = (f"{maps}.size({k})" for k in range(4))
+    if crop_call is not None:
+        b2 = astq.bind_args(prog.func(f"{PF}:crop_bboxes"), crop_call)
+        im = b2.get("images")
+        ok = isinstance(im, ast.Call) and norm(im.func).split(".")[-1] in ("reshape", "view")
+        if ok:
+            if isinstance(im.func, ast.Attribute) and norm(im.func.value) == maps:
+                shp = im.args[0] if len(im.args) == 1 else ast.List(elts=list(im.args))
+            else:
+                ok = norm(im.args[0]) == maps
+                shp = im.args[1] if ok and len(im.args) == 2 else ast.List(elts=list(im.args[1:]))
+            t = [astq.dims(norm(x)).replace(" ", "") for x in shp.elts] if ok and isinstance(shp, (ast.List, ast.Tuple)) else []
+            ok = ok and t[1:] == ["1", H_, W_] and t[:1] and t[0] in (f"{S_}*{C_}", f"{C_}*{S_}", "-1")
+        res.ob("C06-index", ok, fi.qualname, "maps flattened to (samples*channels, 1, H, W)", f"maps are reshaped to `{short(im, 60) if im is not None else '?'}`", fi.where)
+        ix = b2.get("sample_inds")
+        t = astq.dims(norm(ix)).replace(" ", "").replace("(", "").replace(")", "") if ix is not None else ""
+        C2 = C_.replace("(", "").replace(")", "")
+        ok = t in (f"{sinds}*{C2}+{cinds}", f"{cinds}+{sinds}*{C2}", f"{C2}*{sinds}+{cinds}", f"{cinds}+{C2}*{sinds}")
+        res.ob("C06-index", ok, fi.qualname, f"crop index = {sinds} * channels + {cinds}",
+               f"the per-peak crop index is `{short(ix, 60) if ix is not None else '?'}`: it does not address map (sample, channel) in the (samples*channels) flattening - "
+               "patches are cut from another channel's or sample's map", fi.where, sample=short(ix, 60) if ix is not None else None)
+        res.ob("C06-index", ok, fi.qualname, "samples/channels read from dims 0/1", "samples/channels read from other dims", fi.where)
+        res.ob("C06-index", True, fi.qualname, "crops cut from the flattened maps with the flattened index", "", fi.where)
+        bx = b2.get("bboxes")
+        okb = isinstance(bx, ast.Call) and prog.resolve_call(fi, bx) == "sleap_nn.data.instance_cropping:make_centered_bboxes"
+        if okb:
+            b3 = astq.bind_args(prog.func("sleap_nn.data.instance_cropping:make_centered_bboxes"), bx)
+            okb = norm(b3.get("centroids")) == rough and norm(b3.get("box_height")) == norm(b3.get("box_width")) and norm(b3.get("box_height")) in (patch_n, "integral_patch_size")
+        res.ob("C06-index", okb, fi.qualname, "patches centred on the rough peaks, patch-size square", "patch boxes are not centred on the rough peaks with the integral patch size", fi.where)
+    else:
+        res.ob("C06-index", False, fi.qualname, "crops cut from the flattened maps with the flattened index", "crop_bboxes is not called with the flattened maps and the flattened index", fi.where)
+    # integral regression itself: (sum(xv.view(1,1,1,-1) * cms, [2,3]) / sum(cms, [2,3]), same with yv.view(1,1,-1,1))
     ig = prog.func(f"{PF}:integral_regression")
     res.touch(ig)
-    d = {norm(s.targets[0]): norm(s.value).replace(" ", "") for s in walk_function(ig.node) if isinstance(s, ast.Assign)}
-    ok = d.get("x_hat") == "torch.sum(xv.view(1,1,1,-1)*cms,dim=[2,3])/z" and d.get("y_hat") == "torch.sum(yv.view(1,1,-1,1)*cms,dim=[2,3])/z" and d.get("z", "").startswith("torch.sum(cms,dim=[2,3])")
-    res.ob("C06-pass", ok, ig.qualname, "x_hat/y_hat are expectations over the last / second-to-last axis", "integral_regression no longer computes sum(grid*cms)/sum(cms) with x on the last axis", ig.where)
+    check_integral(prog, res, ig, "C06-pass")
     res.floor("C06-pass", 12)
     res.floor("C06-index", 5)
+
+
+def check_integral(prog: Program, res: Result, ig, rule: str) -> None:
+    rets = [n for n in walk_function(ig.node) if isinstance(n, ast.Return)]
+    ok = len(rets) == 1 and isinstance(rets[0].value, ast.Tuple) and len(rets[0].value.elts) == 2
+    pm = ig.pos_params
+    cms, xv, yv = (pm + ["cms", "xv", "yv"])[:3] if len(pm) >= 3 else ("cms", "xv", "yv")
+    if ok:
+        for e, grid, view in ((rets[0].value.elts[0], xv, "(1,1,1,-1)"), (rets[0].value.elts[1], yv, "(1,1,-1,1)")):
+            x = astq.strip_device(astq.expand_at(ig.node, e, rets[0]))
+            good = isinstance(x, ast.BinOp) and isinstance(x.op, ast.Div)
+            if good:
+                num, den = astq.peel(x.left, "to", "float"), astq.peel(x.right, "to", "float")
+                nd = norm(den).replace(" ", "")
+                good = nd in (f"torch.sum({cms},dim=[2,3])", f"{cms}.sum(dim=[2,3])", f"torch.sum({cms},dim=(2,3))", f"{cms}.sum(dim=(2,3))")
+                nn = norm(num).replace(" ", "")
+                forms = {f"torch.sum({grid}.view{view}*{cms},dim=[2,3])", f"torch.sum({cms}*{grid}.view{view},dim=[2,3])", f"({grid}.view{view}*{cms}).sum(dim=[2,3])",
+                         f"torch.sum({grid}.view{view}*{cms},dim=(2,3))", f"({cms}*{grid}.view{view}).sum(dim=[2,3])"}
+                good = good and nn in forms
+            ok = ok and good
+    res.ob(rule, ok, ig.qualname, "x_hat/y_hat are expectations over the last / second-to-last axis", "integral_regression no longer computes sum(grid*cms)/sum(cms) with x on the last axis", ig.where)
 
 
 def check(prog: Program, res: Result) -> None:
